@@ -552,21 +552,29 @@ class BaseSection(base.Sectionable):
             raise TypeError("'%s' object is not iterable" % type(obj_list).__name__)
 
         # Make sure only Sections and Properties with unique names will be added.
+        obj_list = list(obj_list)
+        new_sec_names = []
+        new_prop_names = []
         for obj in obj_list:
             if not isinstance(obj, BaseSection) and not isinstance(obj, BaseProperty):
                 msg = "odml.Section.extend: Can only extend sections and properties."
                 raise ValueError(msg)
 
-            if isinstance(obj, BaseSection) and obj.name in self.sections:
+            if isinstance(obj, BaseSection) and \
+                    (obj.name in self.sections or obj.name in new_sec_names):
                 msg = "odml.Section.extend: Section with name '%s' already exists." % obj.name
                 raise KeyError(msg)
 
-            if isinstance(obj, BaseProperty) and obj.name in self.properties:
+            if isinstance(obj, BaseProperty) and \
+                    (obj.name in self.properties or obj.name in new_prop_names):
                 msg = "odml.Section.extend: Property with name '%s' already exists." % obj.name
                 raise KeyError(msg)
 
             if isinstance(obj, BaseSection):
                 base._check_not_own_ancestor(self, obj)
+                new_sec_names.append(obj.name)
+            else:
+                new_prop_names.append(obj.name)
 
         for obj in obj_list:
             self.append(obj)
